@@ -20,11 +20,14 @@ import (
 	"github.com/goblimey/go-ntrip/jsonconfig"
 )
 
+// slowWriter stands for standard output or a file: it takes its time per call and, like *os.File, it can be closed,
+// after which writes fail.
 type slowWriter struct {
 	mu      sync.Mutex
 	buf     bytes.Buffer
 	latency time.Duration
 	calls   int
+	closed  bool
 }
 
 func (w *slowWriter) Write(p []byte) (int, error) {
@@ -34,7 +37,17 @@ func (w *slowWriter) Write(p []byte) (int, error) {
 	w.mu.Lock()
 	defer w.mu.Unlock()
 	w.calls++
+	if w.closed {
+		return 0, os.ErrClosed
+	}
 	return w.buf.Write(p)
+}
+
+func (w *slowWriter) Close() error {
+	w.mu.Lock()
+	defer w.mu.Unlock()
+	w.closed = true
+	return nil
 }
 
 func (w *slowWriter) snapshot() []byte {
